@@ -15,7 +15,7 @@ import os
 from collections import Counter
 
 from .. import core
-from .C04 import FAMS, par, gen_vectors, nltable_selfcheck, replay_and_validate
+from .C04 import FAMS, par, gen_vectors, nltable_selfcheck, replay_and_validate, spec_mutant
 
 LEVEL = "model_checking"
 KINDS = {0: "air", 1: "surf"}
@@ -78,6 +78,7 @@ def check(run):
                                                   else "MC_CPR_local.cfg"),
                     workers=par(run), timeout=3000, xmx="3g", env={"VERIF_SEED": run.seed})
     run.add_tlc(m)
+    run.cov["spec_mutant_refuted"] = spec_mutant("LocalNoZone", run)
     # G
     nslices = 16 if thorough else 4
     vec_paths, gres = gen_vectors(run, "gen/Gen_CPR05", to_vector05, nslices, "c05")
